@@ -13,6 +13,7 @@ import (
 	"flag"
 	"fmt"
 	"math/rand"
+	"runtime"
 	"sort"
 	"strings"
 	"sync"
@@ -176,7 +177,13 @@ func runOne(n int, g Graph, strat vsched.Strategy, budget int) ([]Event, vsched.
 				log("AddCall", r, y)
 				w.Add(toItem(y))
 			}
-			if x == "root" && len(g.Meet) > 0 {
+			addsMeet := false
+			for _, y := range g.Succ[x] {
+				for _, m := range g.Meet {
+					addsMeet = addsMeet || m == y
+				}
+			}
+			if addsMeet {
 				// the adder waits for the items it added to have started: it cannot run them itself
 				select {
 				case <-meetCh:
@@ -415,6 +422,13 @@ func main() {
 				n = 3 + rng.Intn(3)
 				g = Graph{Succ: map[string][]string{"root": {"mx", "my"}}, Init: []string{"root"}, Meet: []string{"mx", "my"}}
 			}
+			if i%16 == 9 || i%16 == 13 {
+				// the same one step down a chain, with exactly as many runners as are needed at once: the runner that was woken
+				// for mx may find it taken by the runner that added it and go back to sleep - the wake-ups for my and mz
+				// must not be saved on its account
+				n = 3
+				g = Graph{Succ: map[string][]string{"root": {"mx"}, "mx": {"my", "mz"}}, Init: []string{"root"}, Meet: []string{"my", "mz"}}
+			}
 			wg.Add(1)
 			sem <- struct{}{}
 			if atomic.LoadInt32(&hung) > 0 {
@@ -434,6 +448,28 @@ func main() {
 			}()
 		}
 		wg.Wait()
+		// the number of runners is what the caller says, not what the machine has: item graphs that need n calls of f in
+		// progress at once are run with fewer processors than runners
+		if atomic.LoadInt32(&hung) == 0 {
+			old := runtime.GOMAXPROCS(0)
+			for _, procs := range []int{1, 2} {
+				runtime.GOMAXPROCS(procs)
+				for _, g := range []Graph{
+					{Succ: map[string][]string{"root": {"mx"}, "mx": {"my", "mz"}}, Init: []string{"root"}, Meet: []string{"my", "mz"}},
+					{Succ: map[string][]string{"root": {"mx", "my", "mz"}}, Init: []string{"root"}, Meet: []string{"mx", "my", "mz"}},
+				} {
+					n := len(g.Meet) + 1
+					evs, o := runOne(n, g, nil, 0)
+					col.add("free", n, g, evs, o)
+					res.Eval(true)
+					res.Count("free_runs_few_processors", 1)
+					if o.Status == "hang" {
+						break
+					}
+				}
+			}
+			runtime.GOMAXPROCS(old)
+		}
 		res.Count("free_runs", int64(*runs))
 	}
 	w := vutil.NewNDJSONWriter(*traces)
